@@ -45,7 +45,9 @@ P_KeyAgree(o) == Two(o) => \A c \in Cl(o) :
     /\ (o.match /\ o.cl[c].verifier # "-" /\ o.cl[d].verifier # "-") => o.cl[c].derived = o.cl[d].derived
     /\ o.cl[c].derivedDistinct
     /\ (~o.match /\ o.bothCoded) => (o.cl[c].verifier = "-" /\ CountOf(EvOf(o, c), "versions") = 0 /\ CountOf(EvOf(o, c), "message") = 0)
-    /\ (~o.match /\ o.cl[c].heard /\ o.drained) => (ClosedSeen(o, c) /\ VerdictOf(o, c) = "WrongPasswordError")
+    /\ (~o.match /\ o.cl[c].heard /\ o.drained) =>
+           \/ (ClosedSeen(o, c) /\ VerdictOf(o, c) = "WrongPasswordError")
+           \/ (~ClosedSeen(o, c) /\ o.cl[c].selfClosed = "WrongPasswordError")
     /\ (o.match /\ o.goal) => (o.cl[c].verifier # "-")
 
 Names == <<"NoInternal", "DocVerdict", "OnceEach", "Causal", "VersionsFirst", "LateGets", "InOrderOnce",
